@@ -541,7 +541,17 @@ pub fn check(case: &Case, known: &Known) -> Outcome {
             return o;
         }
     };
-    let reached: &str = &reached;
+    judge_driven(case, panic, &reached, known)
+}
+
+/// In-process variant (libFuzzer targets): no isolation, so the caller keeps process-killing
+/// inputs out (`fuzzglue::shallow_source`).
+pub fn check_in_process(case: &Case, known: &Known) -> Outcome {
+    let (panic, reached) = drive(case);
+    judge_driven(case, panic, reached, known)
+}
+
+fn judge_driven(case: &Case, panic: Option<(String, PanicInfo)>, reached: &str, known: &Known) -> Outcome {
     let mut out = Outcome::pass();
     out.key = hash_of(&(&case.kind, &case.input, case.dialect));
     out.nontrivial = matches!(reached, "resolver" | "sql");
@@ -723,6 +733,15 @@ pub fn run(ctx: &Ctx) -> i32 {
     ctx.tape_search("pl-json-mutation", ctx.n(6_000, 300_000), 500, |t| gen_json_case(t, false), |c| check(c, &ctx.known));
     ctx.tape_search("rq-json-mutation", ctx.n(6_000, 300_000), 500, |t| gen_json_case(t, true), |c| check(c, &ctx.known));
     run_ladder(ctx);
+    if !ctx.quick() {
+        ctx.fuzz_campaign("src_stages", ctx.fuzz_secs(300), 2048);
+    }
+    if !ctx.quick() {
+        ctx.fuzz_campaign("json_pl", ctx.fuzz_secs(200), 32768);
+    }
+    if !ctx.quick() {
+        ctx.fuzz_campaign("json_rq", ctx.fuzz_secs(200), 32768);
+    }
     ctx.finish(
         "(a) token-level mutations (delete / duplicate / swap / replace / insert from a vocabulary / copy) of valid generated programs, 1-3 per case; (b) structure-aware mutations of valid PL JSON and (c) of valid RQ JSON (graft a sub-tree, retype, drop a field or element, duplicate an element, renumber an id, rename an operator, inject a ColumnRef); (d) the repository's queries under all 12 dialects; (e) a deterministic nesting ladder (parentheses, unary minus, tuples, arrays, !, +, pipeline length, let chains, case, f-string parts) run in child processes with the default main-thread stack. Each case drives prql_to_tokens, prql_to_pl, pl_to_prql, pl_to_rq, rq_to_sql, compile, json::* under catch_unwind; a panic or a deadly signal is a violation unless it matches a recorded panic (file + message prefix). non-trivial = the input reaches the resolver or the SQL back-end (or is a ladder rung); distinct = (kind, input, dialect)",
         &["termination / polynomial time cannot be decided by testing: a watchdog time-out is reported as inconclusive, never as a violation", "recorded panics are matched on file and message prefix, not on line numbers"],
